@@ -15,6 +15,7 @@ import (
 	"os"
 	"os/exec"
 	"path/filepath"
+	"regexp"
 	"sort"
 	"strings"
 	"sync"
@@ -69,6 +70,8 @@ func signedVariant(in pipeInput, key *dsig.PrivateKey) (pipeInput, bool) {
 	}
 	return pipeInput{name: in.name + "#signed", data: b, signed: true}, true
 }
+
+var amountText = regexp.MustCompile(`^-?[0-9]+\.[0-9]+$`)
 
 var fixedHeadUUID = uuid.MustParse("0190d2c4-0000-7000-8000-0000000000aa")
 
@@ -340,6 +343,47 @@ func pipeVariants(name string, data []byte) []pipeInput {
 			return true
 		})
 	}
+	// every amount written with one more (zero) decimal than it has: the same value, another precision
+	add("amount-zeros", func(doc map[string]any) bool {
+		hit := false
+		var walk func(x any) any
+		walk = func(x any) any {
+			switch v := x.(type) {
+			case map[string]any:
+				for k, e := range v {
+					if k != "code" && k != "uuid" && k != "val" {
+						v[k] = walk(e)
+					}
+				}
+			case []any:
+				for i, e := range v {
+					v[i] = walk(e)
+				}
+			case string:
+				if amountText.MatchString(v) {
+					hit = true
+					return v + "0"
+				}
+			}
+			return x
+		}
+		walk(doc)
+		return hit
+	})
+	// a payment means key extended twice
+	add("means-extended", func(doc map[string]any) bool {
+		pm, ok := doc["payment"].(map[string]any)
+		if !ok {
+			return false
+		}
+		in, ok := pm["instructions"].(map[string]any)
+		if !ok || in["key"] == nil {
+			return false
+		}
+		in["key"] = "credit-transfer+sepa+instant"
+		delete(in, "ext")
+		return true
+	})
 	// one more decimal on every price
 	add("price-decimals", func(doc map[string]any) bool {
 		ls, ok := doc["lines"].([]any)
@@ -464,7 +508,8 @@ func pipeRun(repo, seqFile string, perDoc int, seed int64, ngen int, procEvery i
 			ops := append([]string{}, seqs[(di*perDoc+k+int(seed)*7919)%len(seqs)]...)
 			if k == 0 {
 				// always start one trace with the plain pipeline and the cross-goroutine / cross-process comparison
-				ops = []string{"Calculate", "Reserialise", "Calculate", "OtherGoroutine"}
+				// (the observers first, on the document as it was read)
+				ops = []string{"Validate", "Extract", "Digest", "Calculate", "Reserialise", "Calculate", "OtherGoroutine"}
 				if procEvery > 0 && di%procEvery == 0 {
 					ops = append(ops, "OtherProcess")
 				}
